@@ -31,3 +31,14 @@ CLAIMS = {
 }
 
 NOT_APPLICABLE = {}
+
+CLAIMS["C13"] = dict(
+    text="Proof for images of any length, any 16-bit base and any 16-byte tape name: bin is base and length as little-endian words then the bytes; raw is the bytes; "
+         "make_wav_file writes the canonical 44-byte 8-bit mono PCM RIFF header; encode_data_bits emits 8 pulses per byte least significant bit first; "
+         "encode_as_wav (standard and turbo, also through the file_formats wrappers) is sync, header bits, pause, data bits, [pause], checksum bits, EOF with the "
+         "checksum equal to the 16-bit end-around-carry sum. Closed: the pulse constants equal the BK tape shapes and are prefix-free. The spec demodulator is also "
+         "run on the real encoder's output (run-time check, counted separately).",
+    note="Trusted: pyvc, z3, struct.pack model, spec/bk_tape.py as the statement of the tape format. sum(code) is an uninterpreted function of the byte sequence. "
+         "Path derivation of make_* directives and CLI -o (os.path, devices) is not yet under contract. Known finding D8 (image >= 64 KiB in bin format) is proved absent "
+         "outside its region.",
+)
